@@ -44,6 +44,11 @@ VALUES = [
     ("str-dollar-ref", "'$v1'", "$v1"),
     ("str-dollar-end", "'cost$'", "cost$"),
     ("str-backslash", "'x\\\\y'", "x\\y"),
+    ("str-backslash-b", "'a\\\\b'", "a\\b"),
+    ("str-backslash-n", "'a\\\\n'", "a\\n"),
+    ("str-double-backslash", "'a\\\\\\\\b'", "a\\\\b"),
+    ("str-newline-escape", "'l1\\nl2'", "l1\nl2"),
+    ("str-escaped-quote", "'q\\'q'", "q'q"),
     ("str-percent", "'100%'", "100%"),
     ("str-percent-s", "'%s'", "%s"),
     ("str-semicolon", "'a;b'", "a;b"),
